@@ -54,7 +54,7 @@ CONTRACTS = {
         "modifies": [], "local_sorts": {"unit_chain": "Seq[Ref:Unit]"},
         "loops": {
             0: {"inv": {"folding up preserves the root value": "current_unit is not None and to_root(current_unit, current_value) == to_root(source_unit, value)"},
-                "local_sorts": {"current_value": "Real"}},
+                "local_sorts": {"current_value": "Real"}, "unconstrained_ok": ["next_unit"]},      # a per-iteration temporary (bound before use in every iteration)
             1: {"inv": {"root value fixed": "current_value == to_root(source_unit, value)",
                         "chain links: each element's base is the next one; the cursor is the base of the last": "current_unit is not None and len(unit_chain) >= 0 and "
                         "forall(j, Int, implies(0 <= j and j < len(unit_chain), unit_chain[j] is not None and unit_chain[j].base_unit is not None and "
